@@ -1,5 +1,7 @@
 """C18 Keyed shards protect chunk hashes, keep dedup working, and expire."""
-from checks import sh_common
+import json
+
+from checks import sh_common, sm_common
 
 
 def check(ctx):
@@ -7,6 +9,8 @@ def check(ctx):
     ctx.model("ShardKeyed", "MC_ShardKeyed.cfg", must_cover=("Export", "Tick", "Load", "Clean"))
     ctx.model("ShardKeyed", "MC_ShardKeyed_ctl.cfg", expect_violation="NeverDeletedEarly", coverage=False)
     ctx.model("ShardKeyed", "MC_ShardKeyed_ctl2.cfg", expect_violation="LoadsUnexpired", coverage=False)
+    # the manager's collections by key (registration index, query across collections) at lock granularity
+    sm_common.run(ctx, controls=("hoisted_index", "first_verdict"))
     k = 6 if thorough else 2
     for i in range(k):
         sh_common.record(ctx, "keyed", 5, seed_off=i, need=("ShExport", "ShDedupPair", "ShExpiry", "ShKeyedFile", "ShKeyedTimes"))
@@ -16,4 +20,6 @@ def check(ctx):
 
 
 def replay(ctx, path):
+    if json.loads(open(path).readline()).get("ev") == "SmSetup":
+        return 0 if sm_common.validate(ctx, path, "replay") else 1
     return 0 if sh_common.validate(ctx, path, "replay") else 1
